@@ -125,12 +125,16 @@ func backendHandler(w http.ResponseWriter, r *http.Request) {
 var (
 	backOnce sync.Once
 	backend  *httptest.Server
+	backend2 *httptest.Server // the same handler behind TLS, speaking HTTP/2
 	deadAddr string
 )
 
 func setupBackend() {
 	backOnce.Do(func() {
 		backend = httptest.NewServer(http.HandlerFunc(backendHandler))
+		backend2 = httptest.NewUnstartedServer(http.HandlerFunc(backendHandler))
+		backend2.EnableHTTP2 = true
+		backend2.StartTLS()
 		// a "dead" backend that stays bound (so the port cannot be reused by
 		// anything else) and drops every connection at once
 		l, _ := net.Listen("tcp", "127.0.0.1:0")
@@ -166,6 +170,15 @@ type Upstream struct {
 	Rules       []Rule `json:"rules"`
 	MaxConns    int    `json:"max_conns,omitempty"`       // pressure sub-check only
 	TryMs       int    `json:"try_duration_ms,omitempty"` // pressure sub-check only: retries without a dead host
+	// H2: the live backend is an https:// address (insecure_skip_verify) and negotiates HTTP/2
+	H2 bool `json:"h2,omitempty"`
+}
+
+func (u Upstream) backendURL() string {
+	if u.H2 {
+		return backend2.URL
+	}
+	return backend.URL
 }
 
 type Req struct {
@@ -199,7 +212,10 @@ func casketfile(u Upstream) string {
 	if u.Retry {
 		fmt.Fprintf(&sb, " http://%s%s", deadAddr, u.Base)
 	}
-	fmt.Fprintf(&sb, " %s%s {\n", backend.URL, u.Base)
+	fmt.Fprintf(&sb, " %s%s {\n", u.backendURL(), u.Base)
+	if u.H2 {
+		sb.WriteString("\t\tinsecure_skip_verify\n")
+	}
 	if u.Retry {
 		sb.WriteString("\t\tpolicy first\n\t\ttry_duration 2s\n\t\ttry_interval 5ms\n\t\tfail_timeout 30s\n")
 	}
@@ -515,6 +531,10 @@ func runCase(c *Case) (nontrivial int, err error) {
 			if k == "Host" || k == "X-Forwarded-Port" {
 				continue
 			}
+			if c.Up.H2 && k == "Cookie" && len(v) > 1 {
+				// HTTP/2 carries Cookie as crumbs which the receiving server joins with "; " (RFC 9113, 8.2.3)
+				v = []string{strings.Join(v, "; ")}
+			}
 			if !sameMulti(got.Header[k], v) {
 				return nontrivial, fmt.Errorf("%s: backend saw header %s = %q, want %q", desc, k, got.Header[k], v)
 			}
@@ -534,7 +554,7 @@ func runCase(c *Case) (nontrivial int, err error) {
 				}
 			}
 		}
-		wantHost := strings.TrimPrefix(backend.URL, "http://")
+		wantHost := strings.TrimPrefix(strings.TrimPrefix(c.Up.backendURL(), "http://"), "https://")
 		if c.Up.Transparent {
 			wantHost = "proxy.test"
 		}
@@ -747,6 +767,7 @@ func genCase(t *rapid.T) *Case {
 		}
 		u.Rules = append(u.Rules, ru)
 	}
+	u.H2 = rapid.IntRange(0, 4).Draw(t, "h2backend") == 0
 	c.Up = u
 	n := rapid.IntRange(1, 6).Draw(t, "nreq")
 	for i := 0; i < n; i++ {
@@ -760,6 +781,17 @@ func genCase(t *rapid.T) *Case {
 			}
 		}
 		r.Script = genScript(t, lb)
+		if u.H2 {
+			// an HTTP/2 server does not transmit a Connection field (Go's drops it from the handler's
+			// header), so the fields it names cannot be known to the proxy: not generated
+			var kept [][2]string
+			for _, kv := range r.Script.Header {
+				if canon(kv[0]) != "Connection" {
+					kept = append(kept, kv)
+				}
+			}
+			r.Script.Header = kept
+		}
 		c.Reqs = append(c.Reqs, r)
 	}
 	return c
@@ -775,6 +807,9 @@ func TestRelay(t *testing.T) {
 		var classes []string
 		if c.Up.Retry {
 			classes = append(classes, "retry")
+		}
+		if c.Up.H2 {
+			classes = append(classes, "http2-tls-backend")
 		}
 		if c.Up.Transparent {
 			classes = append(classes, "transparent")
